@@ -1027,7 +1027,8 @@ func builtinHasKey(env *lisp.LEnv, args *lisp.LVal) *lisp.LVal {
 				break
 			}
 		}
-		if !matched {
+		// The type list is optional: without one the key's value may have any type.
+		if len(compares) > 0 && !matched {
 			return lisp.ErrorConditionf(WrongType, "Key %s was of wrong type", key)
 		}
 		return lisp.String(key)
@@ -1077,7 +1078,8 @@ func builtinMayHaveKey(env *lisp.LEnv, args *lisp.LVal) *lisp.LVal {
 				break
 			}
 		}
-		if !matched {
+		// The type list is optional: without one the key's value may have any type.
+		if len(compares) > 0 && !matched {
 			return lisp.ErrorConditionf(WrongType, "Key %s was of wrong type", key)
 		}
 		return lisp.String(key)
